@@ -280,6 +280,13 @@ func runShard(b *build, prop, tier string, seed int64, shard, nshards int, a *ag
 			"VH_ONLY="+only,
 			"GORACE=halt_on_error=0 exitcode=0 log_path="+racePath,
 		)
+		// some shards run with a GOMAXPROCS that differs from the number of CPUs (more, and far fewer)
+		switch shard % 4 {
+		case 1:
+			cmd.Env = append(cmd.Env, fmt.Sprintf("GOMAXPROCS=%d", 2*runtime.NumCPU()+3))
+		case 3:
+			cmd.Env = append(cmd.Env, "GOMAXPROCS=3")
+		}
 		cmd.Env = append(cmd.Env, extraEnv...)
 		cmd.Stdout = errF
 		cmd.Stderr = errF
